@@ -200,7 +200,7 @@ out = {}
 tab = t.symbol_table.get_sym_table()
 for rk in sorted(t.traces):
     df = t.get_trace(rk).copy()
-    df["name"] = [tab[i] for i in df["name"]]; df["cat"] = [tab[i] for i in df["cat"]]
+    df["name"] = [tab[i] if 0 <= i < len(tab) else f"<bad id {i}>" for i in df["name"]]; df["cat"] = [tab[i] if 0 <= i < len(tab) else f"<bad id {i}>" for i in df["cat"]]
     cols = [c for c in ["index","name","cat","ts","dur","stream","correlation","index_correlation","iteration"] if c in df.columns]
     out[f"trace{rk}"] = df.sort_values("index")[cols].values.tolist()
 def rec(k, f):
@@ -212,6 +212,19 @@ def rec(k, f):
         out[k] = r
     except Exception as e:
         out[k] = "EXC " + type(e).__name__
+# absolute check: every loaded row decodes to the strings of the file event it came from (row id = position in traceEvents)
+bad = 0
+ok_files, files = tfm.create_rank_to_trace_dict_from_dir(d)
+import gzip as _gz
+for rk in sorted(t.traces):
+    path = files[rk]
+    with (_gz.open(path, "rt") if path.endswith(".gz") else open(path)) as fh:
+        src = json.load(fh)["traceEvents"]
+    df = t.get_trace(rk)
+    for i, n_, c_ in zip(df["index"], df["name"], df["cat"]):
+        if not (0 <= int(n_) < len(tab) and 0 <= int(c_) < len(tab)) or tab[int(n_)] != src[int(i)]["name"] or tab[int(c_)] != src[int(i)]["cat"]:
+            bad += 1
+print("DECODE", bad)
 rec("temporal", lambda: ta.get_temporal_breakdown(visualize=False))
 rec("kernel", lambda: ta.get_gpu_kernel_breakdown(visualize=False, num_kernels=3))
 rec("overlap", lambda: ta.get_comm_comp_overlap(visualize=False))
@@ -223,9 +236,15 @@ print(hashlib.sha256(json.dumps(out, sort_keys=True, default=str).encode()).hexd
 
 
 def _matrix_case(seed: int) -> Dict[str, Any]:
-    from hv import gen, rt
+    from hv import gen, rt, synth
 
+    wide_narrow = seed < 0  # marker: rank 0 with a vocabulary of several hundred symbols next to ranks with a few dozen (ids beyond 127 / local ids below)
+    seed = abs(seed)
     per_rank = gen.gen_trace_set(seed, n_ranks=2 + seed % 2, steps=2, n_top=2, n_streams=2)
+    if wide_narrow:
+        t_end = max(e["ts"] + e.get("dur", 0) for e in per_rank[0] if "dur" in e and e.get("cat") != "Trace")
+        for k in range(300):
+            per_rank[0].append(synth.host_op(f"wide::op_{k:04d}", t_end + 10 + 3 * k, 2))
     # different vocabularies per rank
     for rk, evs in per_rank.items():
         for e in evs:
@@ -233,6 +252,7 @@ def _matrix_case(seed: int) -> Dict[str, Any]:
                 e["name"] = f"aten::rank{rk}_only_{e['ts'] % 7}"
     fails: List[Dict[str, Any]] = []
     digests = {}
+    decode_bad: Dict[str, str] = {}
     with rt.trace_dir(per_rank) as d:
         script = os.path.join(d, "_digest.py")
         with open(script, "w") as fh:
@@ -243,8 +263,15 @@ def _matrix_case(seed: int) -> Dict[str, Any]:
                     env = dict(os.environ, PYTHONHASHSEED=str(hs))
                     p = subprocess.run([sys.executable, "-W", "ignore", script, d, str(use_mp), str(rev), os.environ.get("HV_REPO", "/repo")], capture_output=True, text=True, env=env, timeout=300)
                     key = f"hashseed={hs} mp={use_mp} reversed={rev}"
-                    digests[key] = p.stdout.strip().splitlines()[-1] if p.returncode == 0 and p.stdout.strip() else f"ERROR rc={p.returncode}: {p.stderr[-300:]}"
+                    lines = p.stdout.strip().splitlines()
+                    digests[key] = lines[-1] if p.returncode == 0 and lines else f"ERROR rc={p.returncode}: {p.stderr[-300:]}"
+                    dec = [ln for ln in lines if ln.startswith("DECODE ")]
+                    if p.returncode == 0 and (not dec or dec[-1] != "DECODE 0"):
+                        decode_bad[key] = dec[-1] if dec else "no DECODE line"
         os.unlink(script)
+    if decode_bad:
+        fails.append({"what": "rows_decode_to_their_file_strings", "input": {"seed": seed, "wide_narrow": wide_narrow, "events": {k: v[:40] for k, v in per_rank.items()}},
+                      "observed": decode_bad, "expected": "every loaded row's name / cat id decodes to the string of the file event at its index"})
     vals = set(digests.values())
     if len(vals) != 1 or any(v.startswith("ERROR") for v in vals):
         fails.append({"what": "results_independent_of_numbering_and_order", "input": {"seed": seed, "events": per_rank}, "observed": digests, "expected": "one digest for all configurations"})
@@ -289,8 +316,8 @@ def bounded_matrix(ctx):
     from hv import rt
 
     n = 3 if not ctx.thorough else 12
-    res = rt.pmap(_matrix_case, [ctx.seed * 31 + i for i in range(n)], min(ctx.procs, n))
-    return rt.summarise(res, f"{PROP}.bounded", f"{n} multi-rank trace sets with rank-specific vocabularies; 12 configurations each (PYTHONHASHSEED 0-3 x multiprocessing on/off x reversed "
+    res = rt.pmap(_matrix_case, [ctx.seed * 31 + i for i in range(n)] + [-(ctx.seed * 31 + 7)], min(ctx.procs, n + 1))
+    return rt.summarise(res, f"{PROP}.bounded", f"{n} multi-rank trace sets with rank-specific vocabularies + 1 set with a 300-symbol rank next to small-vocabulary ranks; 12 configurations each (PYTHONHASHSEED 0-3 x multiprocessing on/off x reversed "
                         "rank discovery order for two seeds); digest over decoded loaded frames and six getters")
 
 
